@@ -187,6 +187,12 @@ class PathCond(Domain):
             name = al[name]
         return name
 
+    def goal(self, state, text: str):
+        """formula for `text` as read on this path (local copies replaced by what they copy)"""
+        env = dict(state[1])
+        return parse(ast.parse(text, mode='eval').body, {k: v for k, v in env.items() if not k.startswith('@')},
+                     self._subst(env))
+
     def _subst(self, env: dict) -> dict[str, str]:
         out = dict(self.subst)
         for k, v in env.items():
